@@ -114,7 +114,7 @@ def h_validate(L: int, M: int) -> bool:
 
 
 # (a) symbolic label_length: SQLCompiler._truncated_identifier
-COUNTERS = [1, 2, 15, 16, 255, 256, 4095, 4096, 0xFFFFF]
+COUNTERS = [1, 2, 15, 16, 255, 256, 4095, 4096, 0xFFFFE]
 
 
 def h_truncated_identifier(kind: str, L: int, c0: int, lo: int, hi: int, ll: int) -> bool:
@@ -183,7 +183,7 @@ TOKENS = ["%(table_name)s", "%(column_0_name)s", "%(column_1_name)s", "%(column_
 TEMPLATES = ["ix_" + t for t in TOKENS[:10]] + ["%(table_name)s_%(column_0_N_name)s_x", "fk_%(table_name)s_%(column_0_name)s_%(referred_table_name)s",
                                                "%(column_0_name)s%(column_0_name)s", "lit"] + ["q_" + t for t in TOKENS[10:]]
 NAMES = ["t", "a%b", "A B", "x" * 40, "%(table_name)s", "é"]
-KINDS = ["ix", "uq", "ck", "pk", "fk"]
+KINDS = ["ix", "uq", "ck", "fk"]
 
 
 def _ref_expand(template: str, kind: str, tname: str, cols, keys, cname: Optional[str], ref):
@@ -233,8 +233,8 @@ def _naming_body(kind: str, tpl: int, ncols: int, nm: int, named: bool) -> bool:
     uses_ref = "referred" in template
     if kind != "fk" and uses_ref:
         return True  # referred_* tokens only exist for foreign keys
-    if ncols == 0 and (kind in ("fk", "pk", "uq") or uses_ref):
-        return True
+    if ncols == 0 and kind != "ck":
+        return True  # only a textual CHECK constraint can have no columns
     ref = ("other tbl", ["id", "id2"][:max(ncols, 1)])
     try:
         want = _ref_expand(template, kind, tname, cols, keys, cname, ref)
@@ -248,10 +248,7 @@ def _naming_body(kind: str, tpl: int, ncols: int, nm: int, named: bool) -> bool:
             const = sa.UniqueConstraint(*tcols, name=cname)
             t.append_constraint(const)
         elif kind == "ck":
-            const = sa.CheckConstraint(tcols[0] > 5 if tcols else sa.text("1=1"), name=cname)
-            t.append_constraint(const)
-        elif kind == "pk":
-            const = sa.PrimaryKeyConstraint(*tcols, name=cname)
+            const = sa.CheckConstraint(sa.and_(*[c > 5 for c in tcols]) if tcols else sa.text("1=1"), name=cname)
             t.append_constraint(const)
         else:
             const = sa.ForeignKeyConstraint(tcols, [other.c.id, other.c.id2][:ncols], name=cname)
@@ -264,6 +261,8 @@ def _naming_body(kind: str, tpl: int, ncols: int, nm: int, named: bool) -> bool:
         return want_exc is not None and got_exc is not None
     if named and "constraint_name" not in template:
         return got == "cn"  # an explicit name wins over a convention without the constraint_name token
+    if want == "":
+        return not got  # an empty expansion names nothing
     if not isinstance(got, conv) or str(got) != want:
         return False
     # deterministic: asking again gives the same text; rendering respects the dialect's limit
@@ -424,7 +423,7 @@ META = {
         "quick": {"name length": LENS, "max_ / max_identifier_length": "symbolic 1..300 (ranges 1..7, 8, 9..255, 256..300)",
                   "label_length": "symbolic 7..255", "truncation counter start": COUNTERS, "md5": "any 4 trailing hex digits",
                   "anonymous label bodies": "%d strings over %r" % (len(BODIES), "".join(BODY_ALPHABET)),
-                  "naming": "%d templates x %d names x 5 constraint kinds x 0..2 columns x named/unnamed" % (len(TEMPLATES), len(NAMES)),
+                  "naming": "%d templates x %d names x 4 constraint kinds (ix, uq, ck, fk) x 0..2 columns x named/unnamed" % (len(TEMPLATES), len(NAMES)),
                   "collisions": "2..3 generated labels from %d (prefix_len,total_len) shapes, label_length in %r; 3 user labels from %r" % (len(SHAPES), LABEL_LENGTHS, USER_LABELS)},
         "thorough": {"same as quick": "all slices are exhausted in the quick tier; thorough adds max_/label_length up to 1000 and 3-column collisions over all shapes"},
     },
@@ -444,8 +443,9 @@ def harnesses(tier: str) -> List[Harness]:
     hs.append(Harness("maxlen", h_maxlen, [dict(L=L, lo=lo, hi=hi) for L in LENS for lo, hi in ranges], budget_s=60))
     hs.append(Harness("validate", h_validate, [dict(L=L) for L in LENS], budget_s=120))
     hs.append(Harness("truncated_identifier", h_truncated_identifier,
-                      [dict(kind=k, L=L, c0=c, lo=lo, hi=hi) for k in ("label", "anon") for L in LENS for c in COUNTERS
-                       for lo, hi in ((7, 255),) + (() if q else ((256, top),))], budget_s=60))
+                      [dict(kind=k, L=L, c0=c, lo=lo, hi=hi) for k in ("label", "anon")
+                       for L in ((0, 4, 12, 64, 300) if q else LENS) for c in ((1, 16, 0xFFFFE) if q else COUNTERS)
+                       for lo, hi in ((7, 255),) + (() if q else ((256, top),))], budget_s=90))
     hs.append(Harness("anon", h_anon, [dict()], budget_s=60))
     hs.append(Harness("naming", h_naming, [dict(kind=k, ncols=n, named=nm) for k, n, nm in NAMING_SLICES], budget_s=120))
     hs.append(Harness("ddl", h_ddl, [dict(dn=d, what=w, explicit=e) for d in DDL_DIALECTS for w in ("ix", "uq") for e in (False, True)],
@@ -476,10 +476,16 @@ def classify(hname, args, rep):
         n = len(USER_LABELS)
         c = args["code"]
         labs = [USER_LABELS[c % n], USER_LABELS[(c // n) % n], USER_LABELS[c // (n * n)]]
-        kinds = sorted(set("anon" if (x or "").startswith("anon_") else "tablename_plus_col" if x in ("tab_a",) else "other"
-                           for x in labs if x is not None))
-        return ("C21:collision:user-label-vs-generated:%s:style%d" % ("+".join(kinds), args["style"]),
-                "select() with labels %r (None = generated) yields two result columns with the same name" % (labs,))
+        t = sa.table("tab", sa.column("a"), sa.column("b"))
+        exprs = [t.c.a + 1, t.c.b + 2, t.c.a]
+        stmt = sa.select(*[e.label(lab) if lab is not None else e for e, lab in zip(exprs, labs)])
+        if args["style"]:
+            stmt = stmt.set_label_style(sa.LABEL_STYLE_TABLENAME_PLUS_COL)
+        keys = [rc[0] for rc in stmt.compile(dialect=DefaultDialect())._result_columns]
+        dup = sorted(set(k for k in keys if keys.count(k) > 1))
+        return ("C21:collision:user-label-equals-generated-name:%s" % "+".join(sorted(set(re.sub(r"\d+", "N", d) for d in dup))),
+                "select() with labels %r (None = generated) has result columns %r: the user-given label %r is also "
+                "handed out as a generated name" % (labs, keys, dup))
     if hname == "collision":
         return ("C21:collision:generated:ll=%s:n=%d" % (LABEL_LENGTHS[args["ll_idx"]], args["ncols"]),
                 "generated labels collide or exceed label_length: %s" % (args,))
